@@ -11,6 +11,7 @@ import (
 	"github.com/ethereum/go-ethereum/core/rawdb"
 	"github.com/ethereum/go-ethereum/core/state/snapshot"
 	"github.com/ethereum/go-ethereum/core/types"
+	"github.com/ethereum/go-ethereum/ethdb"
 	"github.com/ethereum/go-ethereum/triedb"
 
 	"verifsim/simcore"
@@ -32,6 +33,8 @@ import (
 //	read   one fresh iterator (R.Kind 4-7), drained completely
 //	lopen  open iterator R into slot T and drain P entries
 //	ldrain drain slot T to the end and judge it
+//	ljournal Tree.Journal(T-th healthy live root), Release, reload with snapshot.New
+//	       on the same store: only the journaled chain survives
 
 func genLegacy(r *simcore.Rand, tier string, p *Plan) {
 	p.Legacy = true
@@ -42,7 +45,7 @@ func genLegacy(r *simcore.Rand, tier string, p *Plan) {
 	}
 	ph := Phase{}
 	for i := 0; i < n; i++ {
-		switch r.Pick(10, 4, 8, 4, 4) {
+		switch r.Pick(10, 4, 8, 4, 4, 2) {
 		case 0:
 			op := Op{K: "upd", M: genMuts(r, &p.K)}
 			if r.Bool(0.1) {
@@ -59,6 +62,8 @@ func genLegacy(r *simcore.Rand, tier string, p *Plan) {
 			ph.Ops = append(ph.Ops, Op{K: "lopen", R: &rd, T: r.Intn(4), P: r.Intn(5)})
 		case 4:
 			ph.Ops = append(ph.Ops, Op{K: "ldrain", T: r.Intn(4)})
+		case 5:
+			ph.Ops = append(ph.Ops, Op{K: "ljournal", T: r.Pick(3, 1) * r.Intn(64)})
 		}
 	}
 	for s := 0; s < 4; s++ {
@@ -86,6 +91,8 @@ type lworld struct {
 	rn     *runner
 	tree   *snapshot.Tree
 	kv     *simdisk.SimKV
+	diskdb ethdb.Database
+	tdb    *triedb.Database
 	parent map[common.Hash]common.Hash // live diff layers -> parent root
 	disk   common.Hash
 	// genDisk: the disk layer is still the one the initial generation produced
@@ -438,6 +445,44 @@ func (lw *lworld) doOp(op Op) *simcore.Violation {
 			}
 		}
 		return lw.checkLayers("after Cap")
+	case "ljournal":
+		root := lw.selLive(op.T)
+		for i, h := range lw.slots { // iterators of the old tree die with it
+			if h != nil {
+				h.release()
+				lw.slots[i] = nil
+			}
+		}
+		var err error
+		if v := guard("legacy-journal", func() { _, err = lw.tree.Journal(root) }); v != nil {
+			return v
+		}
+		if err != nil {
+			return simcore.Violf("journal-failed", "snapshot Tree.Journal(#%d) failed: %v", rn.m.states[root].idx, err)
+		}
+		lw.tree.Release()
+		var tree *snapshot.Tree
+		if v := guard("legacy-reload", func() {
+			tree, err = snapshot.New(snapshot.Config{CacheSize: 1, NoBuild: true}, lw.diskdb, lw.tdb, root)
+		}); v != nil {
+			return v
+		}
+		if err != nil {
+			return simcore.Violf("legacy-journal-reload-failed", "snapshot.New on the journal just written for #%d failed: %v", rn.m.states[root].idx, err)
+		}
+		lw.tree = tree
+		keep := map[common.Hash]common.Hash{}
+		for c := root; c != lw.disk; c = lw.parent[c] {
+			keep[c] = lw.parent[c]
+		}
+		lw.parent, lw.orphan, lw.genDisk = keep, map[common.Hash]bool{}, false
+		lw.epoch++
+		rn.probe("legacy-journal-reload")
+		if len(keep) > 0 {
+			rn.probe("legacy-journal-reload-with-diff-layers")
+		}
+		rn.logf("M", "journal+reload #%d layers=%d", rn.m.states[root].idx, len(keep)+1)
+		return lw.checkLayers("after Journal + reload")
 	case "read":
 		h, err := lw.open(*op.R)
 		live := lw.live(h.st.root)
@@ -511,8 +556,10 @@ func runLegacy(t *testing.T, p *Plan) *simcore.Result {
 	kv := simdisk.NewSimKV(nil)
 	lw := &lworld{rn: rn, kv: kv, parent: map[common.Hash]common.Hash{}, orphan: map[common.Hash]bool{}, disk: types.EmptyRootHash, genDisk: true}
 	disk := rawdb.NewDatabase(kv)
+	lw.diskdb = disk
 	if v := guard("legacy-open", func() {
 		tdb := triedb.NewDatabase(disk, nil)
+		lw.tdb = tdb
 		tree, err := snapshot.New(snapshot.Config{CacheSize: 1}, disk, tdb, types.EmptyRootHash)
 		if err != nil {
 			simcore.Harnessf("snapshot.New on an empty store: %v", err)
@@ -521,7 +568,7 @@ func runLegacy(t *testing.T, p *Plan) *simcore.Result {
 	}); v != nil {
 		return res.Fail(v)
 	}
-	defer lw.tree.Release()
+	defer func() { lw.tree.Release() }()
 	var viol *simcore.Violation
 	for _, ph := range p.Phases {
 		for _, op := range ph.Ops {
